@@ -25,7 +25,7 @@ theorem posSeq_length (dim band : Nat) : ∀ (n : Nat) (p : Nat × Nat), (posSeq
     of the walk, one per word -/
 theorem fill_ok_iff (dim band : Nat) : ∀ (ws : List (List Char)) (e : Nat) (p : Nat × Nat) (ps : List (Nat × Nat)),
     fill dim band ws e p = .ok ps ↔
-      (ws.length = e ∧ (∀ w ∈ ws, isFloat w = true) ∧ ps = posSeq dim band e p) := by
+      (ws.length = e ∧ (∀ w ∈ ws, toDoubleOk w = true) ∧ ps = posSeq dim band e p) := by
   intro ws
   induction ws with
   | nil =>
@@ -56,8 +56,8 @@ theorem fill_ok_iff (dim band : Nat) : ∀ (ws : List (List Char)) (e : Nat) (p 
           · rename_i ps' hrec
             cases h
             obtain ⟨h1, h2, h3⟩ := (ih (e - 1) _ ps').mp hrec
-            have hf' : isFloat w = true := by
-              cases hfw : isFloat w with
+            have hf' : toDoubleOk w = true := by
+              cases hfw : toDoubleOk w with
               | true => rfl
               | false => rw [hfw] at hf; exact absurd rfl hf
             refine ⟨by rw [List.length_cons]; omega, ?_, ?_⟩
@@ -70,7 +70,7 @@ theorem fill_ok_iff (dim band : Nat) : ∀ (ws : List (List Char)) (e : Nat) (p 
           · cases h
     · rintro ⟨he, hfl, hps⟩
       have hne : ¬ e = 0 := by rw [List.length_cons] at he; omega
-      have hf : isFloat w = true := hfl w (List.mem_cons_self ..)
+      have hf : toDoubleOk w = true := hfl w (List.mem_cons_self ..)
       obtain ⟨e', rfl⟩ : ∃ e', e = e' + 1 := ⟨e - 1, by omega⟩
       have hrec := (ih e' (nextPos dim band p) (posSeq dim band e' (nextPos dim band p))).mpr
         ⟨by rw [List.length_cons] at he; omega, fun x hx => hfl x (List.mem_cons_of_mem _ hx), rfl⟩
@@ -81,7 +81,7 @@ theorem fill_ok_iff (dim band : Nat) : ∀ (ws : List (List Char)) (e : Nat) (p 
 /-- surplus elements are refused before the write: with more words than `e` and the first `e` of them numbers,
     the loop stops at word `e+1` on the `elements == 0` test -/
 theorem fill_too_many (dim band : Nat) : ∀ (ws : List (List Char)) (e : Nat) (p : Nat × Nat),
-    e < ws.length → (∀ w ∈ ws.take e, isFloat w = true) → fill dim band ws e p = .error .too_many := by
+    e < ws.length → (∀ w ∈ ws.take e, toDoubleOk w = true) → fill dim band ws e p = .error .too_many := by
   intro ws
   induction ws with
   | nil => intro e p h; cases h
@@ -91,7 +91,7 @@ theorem fill_too_many (dim band : Nat) : ∀ (ws : List (List Char)) (e : Nat) (
     cases e with
     | zero => rfl
     | succ e =>
-      have hf : isFloat w = true := hfl w (by rw [List.take_succ_cons]; exact List.mem_cons_self ..)
+      have hf : toDoubleOk w = true := hfl w (by rw [List.take_succ_cons]; exact List.mem_cons_self ..)
       have hrec := ih e (nextPos dim band p) (by rw [List.length_cons] at hlen; omega)
         (fun x hx => hfl x (by rw [List.take_succ_cons]; exact List.mem_cons_of_mem _ hx))
       rw [if_neg (Nat.succ_ne_zero e)]
@@ -329,14 +329,14 @@ theorem band_storage_index (dim band r c : Nat) (h1 : 1 ≤ r) (h2 : r ≤ c) (h
 /-- everything about an accepted `<cov-mat>` text -/
 theorem finishCov_ok (dim band : Nat) (text : List Char) (ps : List (Nat × Nat)) (hb : band < dim)
     (h : finishCov dim band text = .ok ps) :
-    (words text).length = Gkf.covElements dim band ∧ (∀ w ∈ words text, isFloat w = true) ∧
+    (words text).length = Gkf.covElements dim band ∧ (∀ w ∈ words text, toDoubleOk w = true) ∧
     ps = bandPositions dim band := by
   obtain ⟨h1, h2, h3⟩ := (fill_ok_iff dim band _ _ _ _).mp h
   exact ⟨h1, h2, by rw [h3, posSeq_covElements dim band hb]⟩
 
 /-- conversely: exactly `covElements` words, all numbers, are accepted -/
 theorem finishCov_complete (dim band : Nat) (text : List Char)
-    (h1 : (words text).length = Gkf.covElements dim band) (h2 : ∀ w ∈ words text, isFloat w = true) :
+    (h1 : (words text).length = Gkf.covElements dim band) (h2 : ∀ w ∈ words text, toDoubleOk w = true) :
     ∃ ps, finishCov dim band text = .ok ps :=
   ⟨_, (fill_ok_iff dim band _ _ _ _).mpr ⟨h1, h2, rfl⟩⟩
 
